@@ -17,7 +17,7 @@ SYNTAXES = ["clock", "clockFrames", "h", "m", "s", "ms", "f", "t"]
 PROFILES = [
   (0, 1, 1, 0), (24, 1, 1, 0), (25, 1, 1, 0), (30, 1, 1, 0), (30, 1000, 1001, 0), (24, 1000, 1001, 0),
   (25, 1, 1, 1), (25, 1, 1, 10), (30, 1, 1, 1000), (30, 1000, 1001, 1000), (24, 1, 1, 1000), (0, 1, 1, 10),
-  (0, 1, 1, 1), (25, 1, 1, 10000000), (0, 1, 1, 1000), (30, 1000, 1001, 10),
+  (0, 1, 1, 1), (25, 1, 1, 10000000), (0, 1, 1, 1000), (30, 1000, 1001, 10), (50, 1, 1, 0), (60, 1000, 1001, 0),
 ]
 
 
@@ -78,7 +78,7 @@ def expr(v, P, prefer, rng=None):
 
 def blank_node(kind, parent):
   return {"kind": kind, "parent": parent, "kids": [], "tc": "par", "b": dict(X.NONE_EXPR), "d": dict(X.NONE_EXPR),
-          "e": dict(X.NONE_EXPR), "reg": "", "rid": "", "srefs": [], "attrs": [], "nested": [], "space": "", "lang": "",
+          "e": dict(X.NONE_EXPR), "reg": "", "rid": "", "srefs": [], "attrs": [], "nested": [], "nrefs": [], "space": "", "lang": "",
           "tag": "", "sprop": "", "sval": ""}
 
 
@@ -336,6 +336,7 @@ def gen_rich(rng, P, serial=0):
     nd["srefs"] = srefs()
     for _ in range(rng.choice([0, 0, 1, 2])):
       nd["nested"].append(rand_attrs(rng, REGION_PROPS, 1, 2))
+      nd["nrefs"].append(srefs() if rng.random() < 0.3 else [])
     if rng.random() < 0.3:
       p = rng.choice(["backgroundColor", "displayAlign", "visibility"])
       s = add(doc, "set", i, sprop=p, sval=rng.choice(VALUES[p]))
@@ -439,13 +440,23 @@ def corruptions(doc, rng, count):
       ok = True
       try:
         # the baseline must still be exactly expressible (frame / tick values re-read under the default parameters)
+        # and its times must stay small enough for 32-bit arithmetic
+        total = 0
         for nd in base["N"]:
           for a in ("b", "d", "e"):
             x = nd[a]
-            if x["syntax"] in ("f", "clockFrames") and not frames_ok(base["P"]):
-              ok = False
-            if x["syntax"] == "t" and (X.ticks_per_tick(base["P"]) * x["num"]) % x["den"]:
-              ok = False
+            if x["syntax"] in ("f", "clockFrames"):
+              if not frames_ok(base["P"]):
+                ok = False
+              else:
+                total += (x["num"] if x["syntax"] == "f" else x["f"]) * X.ticks_per_frame(base["P"])
+            elif x["syntax"] == "t":
+              v = X.ticks_per_tick(base["P"]) * x["num"]
+              if v % x["den"] or v >= 2 ** 30:
+                ok = False
+              total += v // x["den"]
+        if total >= 2 ** 29:
+          ok = False
       except AssertionError:
         ok = False
       if not ok:
